@@ -110,7 +110,50 @@ def mutants(a, seed):
     return 1 if bad else 0
 
 
+def replay_selftest(a, seed):
+    """For a few calibration mutants: find a violation WITH minimisation, then replay the minimised file twice in fresh
+    processes on the mutant tree (must reproduce the same clause and the same event-log digest) and once on the clean tree
+    (must not reproduce)."""
+    import re
+    import shutil
+    import tempfile
+    picks = ['C08-no-active-suffix', 'C18-fetcher-first-end-marker', 'C19-descriptor-first', 'C04-descriptor-in-finally', 'C12-no-sign-inversion']
+    bad = 0
+    for name in picks:
+        if getattr(a, 'only', None) and a.only not in name:
+            continue
+        pid = name.split('-')[0]
+        patch = os.path.join(HERE, 'selftest', 'mutants', name + '.patch')
+        wp = os.path.join(HERE, 'tools', 'with_patch.sh')
+        r = subprocess.run([wp, patch, os.path.join(HERE, 'check'), pid, '--tier', 'quick', '--no-evidence', '--runs', '200'], capture_output=True, text=True, timeout=3600)
+        m = re.search(r'VIOLATION property=%s replay=(\S+)' % pid, r.stdout)
+        if not m:
+            print('%-36s no violation found within 200 runs (exit %d)' % (name, r.returncode))
+            bad += 1
+            continue
+        rp = m.group(1)
+        keep = tempfile.mkdtemp(prefix='dfsim-replay-')
+        rp2 = os.path.join(keep, os.path.basename(rp))
+        shutil.copy(rp, rp2)
+        outs = []
+        for _ in range(2):
+            q = subprocess.run([wp, patch, os.path.join(HERE, 'check'), pid, '--replay', rp2], capture_output=True, text=True, timeout=600)
+            outs.append((q.returncode, re.findall(r'verdict=(\S+) clause=(\S+) key=(\S+) digest=(\S+)', q.stdout)))
+        clean = subprocess.run([os.path.join(HERE, 'check'), pid, '--replay', rp2], capture_output=True, text=True, timeout=600)
+        info = json.load(open(rp2))
+        ok = (outs[0] == outs[1] and outs[0][0] == 1 and outs[0][1] and outs[0][1][0][1] == info['violation']['clause'] and clean.returncode == 0)
+        print('%-36s replay on mutant: %s x2 identical=%s; on clean tree: exit %d; minimised %d -> %d bytes  %s' % (
+            name, outs[0][1][0] if outs[0][1] else outs[0], outs[0] == outs[1], clean.returncode, info['shrink'].get('size_before', 0), info['shrink'].get('size_after', 0), 'OK' if ok else 'FAILED'))
+        shutil.rmtree(keep, ignore_errors=True)
+        if not ok:
+            bad += 1
+    print('selftest-replay: %s' % ('ok' if not bad else '%d failed' % bad))
+    return 1 if bad else 0
+
+
 def main(what, a, seed):
+    if what == 'selftest-replay':
+        return replay_selftest(a, seed)
     if what == 'selftest-determinism':
         return determinism(a, seed)
     if what == 'selftest-mutants':
